@@ -153,6 +153,14 @@ class Built:
             ids = list(agg.items())
             self.presented.append((ids, table))
         self.stack = []
+        self._top_fi = []
+
+        def shared(*args, **kw):
+            # ONE callable object for every function evaluated through foreach (what it does depends on the call
+            # in progress): nothing foreach keeps between calls may be keyed on the callback alone
+            return self._callback(self._top_fi[-1])(*args, **kw)
+
+        self._shared = shared
         self.raised = []
         self.binding_errors = 0
         self.fns = []
@@ -196,7 +204,11 @@ class Built:
                 args = [self.objs[s] for s in sl["srcs"][: n - nkw]]
                 kw = {"k%d" % j: self.objs[s] for j, s in enumerate(sl["srcs"][n - nkw :])}
                 extra = {} if lim is None else {"limit": py_limit(lim)}
-                return foreach(self._callback(fi), *args, sentinel=C.dec_h(self.case["fns"][fi]["sentinel"]), **extra, **kw)
+                self._top_fi.append(fi)
+                try:
+                    return foreach(self._shared, *args, sentinel=C.dec_h(self.case["fns"][fi]["sentinel"]), **extra, **kw)
+                finally:
+                    self._top_fi.pop()
             # deprecated class methods: every source is a keyword; callbacks get bare outcomes / rolls
             kw = {"k%d" % j: self.objs[s] for j, s in enumerate(sl["srcs"])}
             with warnings.catch_warnings():
